@@ -222,8 +222,9 @@ struct Elem {
 using Vec = tbb::concurrent_vector<Elem, TAlloc<Elem>>;
 
 // huge class: construction touches no memory (only a thread-local tick so that the watchdog sees construction going on)
+inline thread_local unsigned h_tick = 0;
 struct HugeElem {
-    HugeElem() { ThreadLocal& t = tl(); if ((++t.tick & 0xffffff) == 0) progress(); }
+    HugeElem() { if ((++h_tick & 0xffffff) == 0) progress(); }
     char c;
 };
 using HugeVec = tbb::concurrent_vector<HugeElem, TAlloc<HugeElem>>;
@@ -267,7 +268,7 @@ struct HangCtx {
     std::atomic<int> inflight{0};            // threads inside a growth call
     std::atomic<int> exceptions{0};          // growth calls of this scenario that ended with an exception
     std::atomic<int> phase{0};               // 0 preparing, 1 concurrent part, 2 sequential growth after the fault, 3 checking
-    std::atomic<int> cur_kind[Pool::kMax + 1]; std::atomic<long> cur_arg[Pool::kMax + 1];
+    std::atomic<int> cur_kind[Pool::kMax + 2]; std::atomic<long> cur_arg[Pool::kMax + 2];   // [kMax], [kMax+1]: the coordinator (prefix / growth after the fault)
     std::mutex m; std::string scenario;
     HangCtx() { for (auto& k : cur_kind) k.store(-1); for (auto& a : cur_arg) a.store(0); }
     void begin(int c, const std::string& scen) { cls.store(c); exceptions.store(0); phase.store(0); inflight.store(0); for (auto& k : cur_kind) k.store(-1); std::lock_guard<std::mutex> l(m); scenario = scen; }
@@ -276,7 +277,7 @@ struct HangCtx {
 inline HangCtx& hang_ctx() { static HangCtx h; return h; }
 struct InCall {
     int slot;
-    InCall(int tid, int kind, long arg) : slot(tid < 0 ? Pool::kMax : tid) { HangCtx& h = hang_ctx(); h.cur_arg[slot].store(arg, kRlx); h.cur_kind[slot].store(kind, kRlx); h.inflight.fetch_add(1, kRlx); }
+    InCall(int tid, int kind, long arg) : slot(tid < 0 || tid > Pool::kMax + 1 ? Pool::kMax + 1 : tid) { HangCtx& h = hang_ctx(); h.cur_arg[slot].store(arg, kRlx); h.cur_kind[slot].store(kind, kRlx); h.inflight.fetch_add(1, kRlx); }
     ~InCall() { HangCtx& h = hang_ctx(); h.inflight.fetch_sub(1, kRlx); h.cur_kind[slot].store(-1, kRlx); }
 };
 
